@@ -1,2 +1,3 @@
 pub mod cjson;
 pub mod keyid;
+pub mod rules;
